@@ -94,6 +94,10 @@ fn gen(rng: &mut Rng, n: usize, tier: &str) -> Vec<Req> {
     for sc in sr::early_creator_cells() {
         emit_resolve(&mut out, rng, &sc, "earlycreator");
     }
+    // a non-power event of the auth difference on an unconflicted key (deterministic cells)
+    for sc in sr::overlay_member_cells() {
+        emit_resolve(&mut out, rng, &sc, "overlaymember");
+    }
     // exhaustive: all labelled DAGs on <= 4 (quick) / <= 5 (thorough) nodes x all 3^n key assignments
     let max_n = if thorough { 5 } else { 4 };
     for nn in 1..=max_n {
